@@ -276,11 +276,59 @@ def seq_history(ctx, S, base, args, seq):
         ctx.fail("C09:sequential.raises.%s" % type(e).__name__, "history %r raised %s: %s" % (seq, type(e).__name__, e), wit, exc=e)
 
 
+def derived_decoders(ctx, S):
+    """command classes derived by the user whose decoder is an ordinary method (it looks at the instance), two commands of
+    each with different settings, decoded through cmd.unmarshall() in turn and again: each command is decoded by its own
+    object; and a decoder replaced on the class between two commands is the one that runs"""
+    import pyscsi.pyscsi.scsi_enum_command as E
+    from pyscsi.pyscsi.scsi_cdb_inquiry import Inquiry
+    from pyscsi.pyscsi.scsi_cdb_readcapacity16 import ReadCapacity16
+    from pyscsi.pyscsi.scsi_cdb_report_luns import ReportLuns
+
+    for parent, opname, kw in ((Inquiry, "INQUIRY", {}), (ReportLuns, "REPORT_LUNS", {}), (ReadCapacity16, None, {})):
+        class Tagged(parent):
+            tag = None
+
+            def unmarshall_datain(self, data, **kwargs):
+                out = dict(parent.unmarshall_datain(data, **kwargs))
+                out["decoded_by"] = self.tag
+                return out
+
+        try:
+            op = getattr(E.sbc, opname) if opname else next(iter([getattr(E.sbc, k) for k in E.sbc.keys if getattr(E.sbc, k).value == 0x9E]))
+            cmds = []
+            for tag in ("first", "second", "third"):
+                cmd = Tagged(op, **kw)
+                cmd.tag = tag
+                for i in range(min(len(cmd.datain), 8)):
+                    cmd.datain[i] = (len(tag) + i) & 0x7F
+                cmds.append(cmd)
+            seen = []
+            for cmd in cmds + cmds[::-1]:
+                cmd.unmarshall()
+                seen.append((cmd.tag, cmd.result.get("decoded_by")))
+            ctx.case(("derived-decoder", parent.__name__), True)
+            ctx.count("derived_class_decodes", len(seen))
+            if any(a != b for a, b in seen):
+                ctx.fail("C09:derived_class.decoded_by_another_command", "commands of a class derived from %s whose decoder is an instance method: %r (own tag, tag of the object that decoded)" % (parent.__name__, seen),
+                         {"class": parent.__name__})
+            # the decoder replaced on the class (a test double, a site-specific fix): later commands are decoded by the new one
+            Tagged.unmarshall_datain = lambda self, data, **kwargs: {"decoded_by": "replacement"}
+            cmds[0].unmarshall()
+            fresh = Tagged(op, **kw)
+            fresh.unmarshall()
+            if cmds[0].result != {"decoded_by": "replacement"} or fresh.result != {"decoded_by": "replacement"}:
+                ctx.fail("C09:derived_class.replaced_decoder_ignored", "a decoder assigned to the class after its first use is not the one that runs", {"class": parent.__name__})
+        except Exception as e:  # noqa: BLE001
+            ctx.fail("C09:sequential.raises.%s" % type(e).__name__, "derived-decoder history raised %s: %s" % (type(e).__name__, e), {"class": parent.__name__}, exc=e)
+
+
 def base_class_and_derived(ctx, S, base, args):
     """histories that also use the generic base class (as older code did: SCSICommand.unmarshall_cdb) and a command
     class derived by the user from a shipped one with an extended layout"""
     from pyscsi.pyscsi.scsi_command import SCSICommand
 
+    derived_decoders(ctx, S)
     names = list(S.COMMANDS)
     for A in names:
         cA = S.COMMANDS[A]
